@@ -39,6 +39,19 @@ REPLY_CODES = {
 }
 
 
+def _receive_socks5_data(
+    conn: socksio.socks5.SOCKS5Connection, data: bytes
+) -> (
+    socksio.socks5.SOCKS5AuthReply
+    | socksio.socks5.SOCKS5UsernamePasswordReply
+    | socksio.socks5.SOCKS5Reply
+):
+    try:
+        return conn.receive_data(data)
+    except socksio.ProtocolError as exc:
+        raise ProxyError(f"Malformed reply from proxy server: {exc}") from exc
+
+
 async def _init_socks5_connection(
     stream: AsyncNetworkStream,
     *,
@@ -61,7 +74,7 @@ async def _init_socks5_connection(
 
     # Auth method response
     incoming_bytes = await stream.read(max_bytes=4096, timeout=timeout)
-    response = conn.receive_data(incoming_bytes)
+    response = _receive_socks5_data(conn, incoming_bytes)
     assert isinstance(response, socksio.socks5.SOCKS5AuthReply)
     if response.method != auth_method:
         requested = AUTH_METHODS.get(auth_method, "UNKNOWN")
@@ -80,7 +93,7 @@ async def _init_socks5_connection(
 
         # Username/password response
         incoming_bytes = await stream.read(max_bytes=4096, timeout=timeout)
-        response = conn.receive_data(incoming_bytes)
+        response = _receive_socks5_data(conn, incoming_bytes)
         assert isinstance(response, socksio.socks5.SOCKS5UsernamePasswordReply)
         if not response.success:
             raise ProxyError("Invalid username/password")
@@ -96,7 +109,7 @@ async def _init_socks5_connection(
 
     # Connect response
     incoming_bytes = await stream.read(max_bytes=4096, timeout=timeout)
-    response = conn.receive_data(incoming_bytes)
+    response = _receive_socks5_data(conn, incoming_bytes)
     assert isinstance(response, socksio.socks5.SOCKS5Reply)
     if response.reply_code != socksio.socks5.SOCKS5ReplyCode.SUCCEEDED:
         reply_code = REPLY_CODES.get(response.reply_code, "UNKOWN")
